@@ -144,6 +144,8 @@ func parseType(s string) Type {
 		return Type{K: KStore}
 	case "OptBytes":
 		return Type{K: KOpt}
+	case "Any":
+		return Type{K: KAny}
 	}
 	return Type{K: KStruct, Name: s}
 }
@@ -262,7 +264,7 @@ func (e *Env) Tr(x Expr) TV {
 				o.Vars[k] = v
 			}
 		}
-		o.Old = nil
+		o.Old = e.Old // old() inside old() is the same pre-state
 		o.Funcs = e.Funcs
 		return o.Tr(x.X)
 	case *EUnary:
@@ -748,6 +750,20 @@ func (e *Env) call(x *ECall) TV {
 	case x.Fn == "asint":
 		Declare("uf:unbox_Int", "(declare-fun unbox_Int (Any) Int)")
 		return TV{T: sx.App("unbox_Int", e.Tr(x.Args[0]).T), Ty: I}
+	case x.Fn == "split":
+		// std.StringSplit(s, sep)
+		NeedList(Type{K: KNB})
+		Declare("uf:native_std_StringSplit", "(declare-fun native_std_StringSplit (String String) L_NB)")
+		return TV{T: sx.App("native_std_StringSplit", toBytes(e.Tr(x.Args[0])), toBytes(e.Tr(x.Args[1]))), Ty: Type{K: KList, Name: "L_NB"}}
+	case x.Fn == "indexof":
+		return TV{T: sx.App("str.indexof", toBytes(e.Tr(x.Args[0])), toBytes(e.Tr(x.Args[1])), sx.Int(0)), Ty: I}
+	case x.Fn == "contains":
+		return TV{T: sx.App("str.contains", toBytes(e.Tr(x.Args[0])), toBytes(e.Tr(x.Args[1]))), Ty: B}
+	case x.Fn == "aslist":
+		// an `any` value converted to []any (the argument list handed to _deploy)
+		NeedList(Type{K: KAny})
+		Declare("uf:unbox_L_Any", "(declare-fun unbox_L_Any (Any) L_Any)")
+		return TV{T: sx.App("unbox_L_Any", e.Tr(x.Args[0]).T), Ty: Type{K: KList, Name: "L_Any"}}
 	case x.Fn == "asbytes":
 		Declare("uf:unbox_NB", "(declare-fun unbox_NB (Any) NB)")
 		return TV{T: sx.App("unbox_NB", e.Tr(x.Args[0]).T), Ty: Type{K: KNB}}
